@@ -13,6 +13,7 @@ import DimodProofs.C02PolyH
 import DimodProofs.C02FromHising
 import DimodProofs.C02SafeRelabels
 import Properties.C04
+import DimodProofs.C02ViewHeap
 
 /-! # C02 — changing between spin and binary representation never changes any energy
 
@@ -640,5 +641,67 @@ theorem pybqm_relabel_variables_runs_safe_split {R : Type} (d : LBqm R) (hnd : (
 /-- a swap on `{0, 1, a}` is split into two phases through the fresh labels `4, 5` (the counter starts at `2·len(mapping)`) -/
 example : (LBqm.variablesOf [.int 0, .int 1, .str "a"]).safeRelabels [(.int 0, .int 1), (.int 1, .int 0)]
     = some [[(.int 0, .int 4), (.int 1, .int 5)], [(.int 4, .int 1), (.int 5, .int 0)]] := by decide +kernel
+
+
+/-! ## round 8 — the object graph of `.spin` / `.binary`: a held view always shows the current model in its vartype
+
+`DimodModel/ViewHeap.lean` models what the two properties and `change_vartype(inplace=True)` do to the graph of model objects:
+the cached `_spin` / `_binary` attributes, the test `bqm.vartype is …` on the cached object, `VartypeView(self.data, vt)` stacked
+on the caller's `data` OBJECT (base data or another, shared, `VartypeView`), `VartypeView.change_vartype` re-assigning `_vartype`
+only.  `F` is the energy function of the base data on spin samples — the quantity the conversion theorems above show invariant
+under the base's in-place `change_vartype`. -/
+
+section ViewGraph
+open ViewHeap ViewHeap.Heap
+
+/-- the sample maps of `VartypeView.energies` compose: mapping a sample from vartype `a` to `b` and reading it as a spin sample
+    is reading the original as a spin sample -/
+theorem view_sample_map_composes (a b : ViewHeap.VT) (x : Nat → Rat) : toSpin b (conv a b x) = toSpin a x :=
+  toSpin_conv a b x
+
+/-- every history of `.spin`, `.binary`, `change_vartype(inplace=True)` calls on any objects keeps the graph well-founded -/
+theorem view_graph_history_wf (vt0 : ViewHeap.VT) (ops : List Op) : ((init vt0).run ops).WF :=
+  wf_run (wf_init vt0) ops
+
+/-- **A held view always shows the current model in its vartype.**  After any history of `.spin` / `.binary` (of the model, of
+    views, of views of views), in-place `change_vartype` of the model, of a held view or of a view in between, EVERY object
+    ever handed out evaluates a sample `x` of the vartype it reports to the base model's energy at the spin sample `x` stands
+    for — through however many `VartypeView` layers, pass-through or converting. -/
+theorem held_view_shows_current_model (vt0 : ViewHeap.VT) (ops : List Op) (F : (Nat → Rat) → Rat) (o : Nat)
+    (ho : o < ((init vt0).run ops).objs.length) (x : Nat → Rat) :
+    objVal F ((init vt0).run ops) o x = F (toSpin (((init vt0).run ops).objVt o) x) :=
+  objVal_eq F _ (view_graph_history_wf vt0 ops) o ho x
+
+/-- `.binary` / `.spin` of any object in any state return an object of the requested vartype (itself, the cached one if it
+    still has that vartype, or a new view) -/
+theorem view_property_returns_requested_vartype (h : Heap) (o : Nat) (vt : ViewHeap.VT) :
+    (h.getView o vt).1.objVt (h.getView o vt).2 = vt :=
+  getView_vt h o vt
+
+/-- two objects of one graph that report the same vartype evaluate every sample alike (whatever their nesting) -/
+theorem views_of_equal_vartype_agree (vt0 : ViewHeap.VT) (ops : List Op) (F : (Nat → Rat) → Rat) (o o' : Nat)
+    (ho : o < ((init vt0).run ops).objs.length) (ho' : o' < ((init vt0).run ops).objs.length)
+    (hvt : ((init vt0).run ops).objVt o = ((init vt0).run ops).objVt o') (x : Nat → Rat) :
+    objVal F ((init vt0).run ops) o x = objVal F ((init vt0).run ops) o' x := by
+  rw [held_view_shows_current_model vt0 ops F o ho, held_view_shows_current_model vt0 ops F o' ho', hvt]
+
+/-- a history that stacks a view on a view: `v = m.spin` on a BINARY model, `m` changed to SPIN in place, `w = v.binary` is a NEW
+    object over `v`'s data (depth 2), then `v` re-typed to BINARY in place: `w` (BINARY over BINARY over SPIN) still reports BINARY,
+    `m.binary` and `w.spin` would each create a new object (id 3), `m.spin` and `w.binary` return the objects themselves — all as the code does
+    (the harness compares exactly these identities, vartypes and depths with the real objects) -/
+example :
+    let h := (init .binary).run [.spin 0, .changeVartype 0 .spin, .binary 1, .changeVartype 1 .binary]
+    h.objs.length = 3 ∧ (List.range 3).map h.objVt = [.spin, .binary, .binary] ∧ (List.range 3).map h.objDepth = [0, 1, 2]
+    ∧ (h.step (.binary 0)).2 = 3 ∧ (h.step (.spin 2)).2 = 3 ∧ (h.step (.spin 0)).2 = 0 ∧ (h.step (.binary 2)).2 = 2 := by
+  decide +kernel
+
+/-- and the evaluation through the two layers at a concrete sample: `F` = the first spin value; the BINARY sample `x₀ = 1` read
+    through object 2 is the spin value `+1` -/
+example :
+    let h := (init .binary).run [.spin 0, .changeVartype 0 .spin, .binary 1, .changeVartype 1 .binary]
+    objVal (fun s => s 0) h 2 (fun _ => 1) = 1 ∧ objVal (fun s => s 0) h 2 (fun _ => 0) = -1 := by
+  decide +kernel
+
+end ViewGraph
 
 end C02
